@@ -1,4 +1,5 @@
 """C14 — layout fixes change only whitespace."""
+import re
 from collections import Counter
 
 from harness import coq, corpus, fixjobs
@@ -21,6 +22,7 @@ CONFIGS = [
     ((("indentation", "tab_space_size"), 2), ("max_line_length", 40)),
     ((("indentation", "indented_joins"), True), (("indentation", "indented_ctes"), True), ("max_line_length", 120)),
     ((("indentation", "template_blocks_indent"), False), (("layout", "type", "comparison_operator", "line_position"), "leading")),
+    ((("indentation", "implicit_indents"), "require"), (("layout", "type", "binary_operator", "line_position"), "leading:attached")),
 ]
 
 
@@ -28,6 +30,19 @@ def split(leaves):
     codes = [r for (r, t, is_code, is_meta, is_comment, is_ws) in leaves if not is_meta and not is_ws and not is_comment and r != ""]
     comments = [r for (r, t, is_code, is_meta, is_comment, is_ws) in leaves if is_comment]
     return codes, comments
+
+
+def merged(m0, m2):
+    """True when every new comment is two or more consecutive old inline comments joined by spaces (one swallowed the next)."""
+    new = list((Counter(m2) - Counter(m0)).elements())
+    gone = list((Counter(m0) - Counter(m2)).elements())
+    if not new:
+        return False
+    for n in new:
+        parts = [g for g in gone if g in n]
+        if len(parts) < 2 or not n.startswith("--"):
+            return False
+    return True
 
 
 def tk_lit(leaves):
@@ -40,7 +55,15 @@ def tk_lit(leaves):
 
 
 def run(ctx, coq_ok):
-    js = fixjobs.jobs(ctx, ["layout"], ("leaves",), extras=CONFIGS)
+    js = fixjobs.jobs(ctx, ["layout"], ("leaves", "fixedleaves"), extras=CONFIGS)
+    js += fixjobs.comment_jobs(ctx, "layout", ("leaves", "fixedleaves"), CONFIGS)
+    # statements with comments next to operators, brackets, keywords and commas: under every configuration
+    seen = set((j[0], j[4], j[6]) for j in js)
+    for d, label, sql in fixjobs.HOSTILE:
+        if "--" in sql or "/*" in sql or "#" in sql:
+            for cfg in CONFIGS:
+                if (d, sql, cfg) not in seen:
+                    js.append((d, "raw", None, "hostile:" + label, sql, "layout", cfg, ("leaves", "fixedleaves")))
     nchanged = 0
     sample_pairs = []
     for (d, tpl, style, label, src, rules, extra, want), st, res in corpus.pmap("harness.fixcheck", "fix_case", js):
@@ -64,6 +87,22 @@ def run(ctx, coq_ok):
         elif Counter(m0) != Counter(m1):
             ctx.violation("comments-changed", "layout fix changed the comments: %r -> %r [%s]" % (sorted((Counter(m0) - Counter(m1)).elements())[:2], sorted((Counter(m1) - Counter(m0)).elements())[:2], d),
                           {"input": inp, "fixed": res["fixed"]}, attrs={"dialect": d})
+        # the same comparison on a fresh parse of the fixed TEXT: the fixed tree can keep two tokens apart that the written text glues together
+        lf_ = res.get("leaves_fixed")
+        if ok and lf_ is not None:
+            c2, m2 = split(lf_)
+            if c0 != c2:
+                i = next((k for k in range(min(len(c0), len(c2))) if c0[k] != c2[k]), min(len(c0), len(c2)))
+                ctx.violation("code-tokens-changed-in-text", "the text written by a layout fix reads back with different code tokens: %r -> %r [%s]" % (c0[i:i + 3], c2[i:i + 3], d),
+                              {"input": inp, "fixed": res["fixed"]},
+                              attrs={"dialect": d, "label": label.split(":")[0], "operator_glued_to_comment": bool(re.search(r"[-+*/<>=|]--|[+*/<>=|]/\*", res["fixed"])),
+                                     "comment_unspaced_in_source": bool(re.search(r"[^\s-]--|[^\s/]/\*", src))})
+            elif Counter(m0) != Counter(m2):
+                ctx.violation("comments-changed-in-text", "the text written by a layout fix reads back with different comments: %r -> %r [%s]" % (
+                    sorted((Counter(m0) - Counter(m2)).elements())[:2], sorted((Counter(m2) - Counter(m0)).elements())[:2], d), {"input": inp, "fixed": res["fixed"]},
+                    attrs={"dialect": d, "merged": merged(m0, m2), "operator_attached": any(str(v).endswith(":attached") for _k, v in extra)})
+        elif ok and changed:
+            ctx.count("fixed-text-does-not-parse")
         if changed and len(sample_pairs) < (40 if ctx.tier == "quick" else 300) and len(res["leaves"]) < 200:
             sample_pairs.append((tk_lit(res["leaves0"]), tk_lit(res["leaves"]), ok, inp))
     if coq_ok and sample_pairs:
